@@ -3,4 +3,4 @@ Require Import ExtrOcamlBasic.
 From GoPdf.Base Require Import WireAnchor.
 From GoPdf.C04 Require Import XRef XRefText Extent Seq ReadRender.
 Separate Extraction wire_anchor build render model_get model_trailer spec_get spec_trailer_of
-  hyp_wf hyp_guard hyp_no_hidden rsec_trips rsec_hides impl_read_pre_F22 impl_read_pre_F39 chain_check catalog_ok stream_extent stream_obj read_xref_table decode_xref_stream xlookup.
+  hyp_wf hyp_guard hyp_no_hidden rsec_trips rsec_hides impl_read_pre_F22 impl_read_pre_F39 read_render_hyp catalog_ok stream_extent stream_obj read_xref_table decode_xref_stream xlookup.
